@@ -896,6 +896,11 @@ def errors(source, model, wcshelper):
     theta = model[prefix + 'theta'].value
     err_theta = model[prefix + 'theta'].stderr
 
+    # lmfit leaves stderr = None when it was not estimated
+    err_amp, err_xo, err_yo, err_sx, err_sy, err_theta = [
+        np.nan if err is None else err
+        for err in (err_amp, err_xo, err_yo, err_sx, err_sy, err_theta)]
+
     source.err_peak_flux = err_amp
     pix_errs = [err_xo, err_yo, err_sx, err_sy, err_theta]
 
@@ -957,15 +962,21 @@ def errors(source, model, wcshelper):
     else:
         source.err_a = source.err_b = ERR_MASK
 
+    # an uncertainty that is not positive and finite is not known
+    for err in ['err_peak_flux', 'err_ra', 'err_dec',
+                'err_pa', 'err_a', 'err_b']:
+        if not (np.isfinite(getattr(source, err))
+                and getattr(source, err) > 0):
+            setattr(source, err, ERR_MASK)
+
     sqerr = 0
     sqerr += (source.err_peak_flux /
               source.peak_flux) ** 2 if source.err_peak_flux > 0 else 0
     sqerr += (source.err_a / source.a) ** 2 if source.err_a > 0 else 0
     sqerr += (source.err_b / source.b) ** 2 if source.err_b > 0 else 0
-    if sqerr == 0:
+    source.err_int_flux = abs(source.int_flux * np.sqrt(sqerr))
+    if not (np.isfinite(source.err_int_flux) and source.err_int_flux > 0):
         source.err_int_flux = ERR_MASK
-    else:
-        source.err_int_flux = abs(source.int_flux * np.sqrt(sqerr))
 
     return source
 
@@ -1289,7 +1300,7 @@ def covar_errors(params, data, errs, B, C=None):
             covar = np.transpose(J).dot(J)
             onesigma = np.sqrt(np.diag(inv(covar)))
         except (np.linalg.LinAlgError, ValueError) as _:
-            onesigma = [-2] * len(mask[0])
+            onesigma = [np.nan] * len(mask[0])
 
     j = 0
     for i in range(int(params['components'].value)):
